@@ -26,17 +26,16 @@ import (
 	"github.com/go-ap/activitypub/verifsim"
 
 	"verif.local/sim/core"
-	"verif.local/sim/sched"
-	"verif.local/sim/simrt"
-	"verif.local/sim/warm"
 	_ "verif.local/sim/props/c04"
 	_ "verif.local/sim/props/c12"
 	_ "verif.local/sim/props/c13"
 	_ "verif.local/sim/props/c19"
+	"verif.local/sim/sched"
+	"verif.local/sim/simrt"
+	"verif.local/sim/warm"
 )
 
 var out = bufio.NewWriterSize(os.Stdout, 1<<16)
-
 
 func emitJSON(v any) {
 	b, err := json.Marshal(v)
